@@ -55,6 +55,23 @@ static std::string fresh_ip() {
   return ip;
 }
 
+// Session::find_connection keys on the remote PORT only; the kernel may hand the same ephemeral port to
+// sockets bound to different loopback addresses. Make sure a hostile peer never shares its port with a
+// healthy one.
+static bool connect_hostile(Session& S, WirePeer& P, Torrent* extra_T = nullptr, WirePeer* extra_H = nullptr) {
+  for (int attempt = 0; attempt < 8; attempt++) {
+    if (!P.connect_to(S.listen_port(), fresh_ip().c_str(), 1 << 20, 0)) return false;
+    uint16_t port = P.local_port();
+    bool clash = extra_H != nullptr && extra_H->local_port() == port;
+    for (auto& kvp : g_roles)
+      if (kvp.second.healthy && kvp.second.healthy->local_port() == port) clash = true;
+    if (!clash) return true;
+    P.close_all();
+    S.step();
+  }
+  return false;
+}
+
 static std::string peer_id(uint32_t n) {
   char idbuf[21];
   snprintf(idbuf, sizeof idbuf, "-LV0003-%012u", n);
@@ -188,7 +205,7 @@ static std::string run_one(Session& S, RoleCtx& rc, std::map<std::string, std::s
   S.step();
   S.avoid_tick_within(30 * 1000000ll);
   WirePeer P;
-  if (!P.connect_to(S.listen_port(), fresh_ip().c_str(), 1 << 20, 0)) return "ERR:connect";
+  if (!connect_hostile(S, P)) return "ERR:connect";
   std::string hello = WirePeer::handshake(T->info_hash, peer_id(g_conn_no));
   if (kv["bits"] != "-") hello += WirePeer::bitfield(kv["bits"]);
   else if (ho.empty()) hello += WirePeer::keepalive();
@@ -284,7 +301,7 @@ static std::string run_free(Session& S, std::map<std::string, std::string>& kv) 
   if (!connect_healthy(S, rc)) return "FREE || ERR:healthy-connect";
   S.avoid_tick_within(120 * 1000000ll);
   WirePeer P;
-  if (!P.connect_to(S.listen_port(), fresh_ip().c_str(), 1 << 20, 0)) return "FREE || ERR:connect";
+  if (!connect_hostile(S, P, T, rc.healthy.get())) return "FREE || ERR:connect";
   P.send_bytes(WirePeer::handshake(T->info_hash, peer_id(g_conn_no)) + WirePeer::bitfield("1111"));
   pump(S, {&P});
   HandshakeIn hs;
